@@ -5,6 +5,7 @@
 import MotoModel.Proofs.DiskSector
 import MotoModel.Proofs.DiskHistory
 import MotoModel.Proofs.DiskRuns
+import MotoModel.Proofs.DiskPlace
 namespace Moto.C10
 open Moto Moto.Disk
 
@@ -143,5 +144,49 @@ theorem file_stored_in_one_place (name ext : Str) (kind flag : Nat) (data : Byte
     (st : Inj) (h : ImgOk st.img) :
     ∃ st', injWriteFile name ext kind flag data 4 st = .ok st' ∧ ImgOk st'.img ∧ OneStep st.img st'.img name ext kind flag data :=
   injWriteFile_step name ext kind flag data hname 4 st h
+
+/-- **C10 (the placement rule)**: a file offered while the cursor is on side `cur` is stored on
+    the first side `k ≥ cur` that has enough free blocks *and* a free catalog entry (`ImgFits`), the
+    cursor stops on `k`, and the file is there with its whole content; when no side from `cur` on
+    can take it, it is stored nowhere, every catalog slot of every side is as before, and the cursor
+    ends past the fourth side (the remaining sources are dropped). -/
+theorem placement_rule (name ext : Str) (kind flag : Nat) (data : Bytes) (hname : ∀ c ∈ name, c ≠ 0xFF) (st : Inj) (h : ImgOk st.img) :
+    ∃ st', injWriteFile name ext kind flag data 4 st = .ok st' ∧
+      ((∃ k, st.cur ≤ k ∧ k < 4 ∧ ImgFits st.img k data.length
+          ∧ (∀ k', st.cur ≤ k' → k' < k → ¬ ImgFits st.img k' data.length) ∧ st'.cur = k
+          ∧ ∃ i0 r, i0 < 112 ∧ imgFileAt st.img k i0 = none ∧ imgFileAt st'.img k i0 = some (r, data))
+       ∨ ((∀ k', st.cur ≤ k' → k' < 4 → ¬ ImgFits st.img k' data.length) ∧ 4 ≤ st'.cur
+          ∧ ∀ k j, k < 4 → j < 112 → imgFileAt st'.img k j = imgFileAt st.img k j)) :=
+  injWriteFile_place name ext kind flag data hname 4 st h (by omega)
+
+/-- a side can take a file exactly when it has as many free blocks as the file needs and a catalog
+    entry that is not live -/
+theorem fits_means (sd : Side) (bat : List Nat) (n : Nat) :
+    Fits sd bat n ↔ (reqBlocks n ≤ freeBlocks bat ∧ ∃ i, i < 112 ∧ ¬ liveData (slotData sd i)) := by
+  unfold Fits CatalogFull
+  constructor
+  · rintro ⟨h1, h2⟩
+    refine ⟨h1, ?_⟩
+    apply Classical.byContradiction
+    intro hne
+    apply h2
+    intro i hi
+    apply Classical.byContradiction
+    intro hl
+    exact hne ⟨i, hi, hl⟩
+  · rintro ⟨h1, i, hi, hl⟩
+    exact ⟨h1, fun hfull => hl (hfull i hi)⟩
+
+/-- **C10 (end-of-side marker)**: a marker moves the cursor to the next side and touches no side -/
+theorem end_of_side_marker (w : Tape.World) (src : Str) (rest : List Str) (st : Inj) (h : ImgOk st.img)
+    (hm : basename (upper src) = Tape.str "--EOS") (hn : st.cur + 1 < 4) :
+    ∃ l', injLoop w (src :: rest) st = injLoop w rest { img := st.img, cur := st.cur + 1, l := l' } := by
+  simp only [injLoop]
+  rw [if_pos hm]
+  obtain ⟨u, hu⟩ := usageOfSide_any h st.cur
+  rw [hu]
+  dsimp only
+  rw [if_neg (by omega)]
+  exact ⟨_, rfl⟩
 
 end Moto.C10
